@@ -38,3 +38,36 @@ prop("C06",
               "concatenation results is covered by the correspondence (results compared after resolution)",
               "integers are Z, dates N in the model; that operands are 64-bit is a property of their producers (decoder, parser)"],
      assumptions=["every error other than DivZero/Overflow/Regex/UnknownVar is one class (IllTyped) in the model and in the comparison"])
+
+AUTHZ_DEPS = ["Base.v", "Term.v", "Expr.v", "Datalog.v", "Authz.v", "Corr.v", "AuthzProofs.v", "Generated.v"]
+AUTHZ_TRUSTED = ["Go's regexp is not modelled (Section variable rx; theorems hold for every rx)",
+                 "S-level model: string terms and names carry their contents; the token's blocks are resolved at their own position. "
+                 "The D-level re-interning through two symbol tables (authorizer.go:120-134) is covered by the correspondence, which "
+                 "compares verdict, failed-check list, the world's ORDERED fact list and query results after resolution",
+                 "wall-clock timeout not modelled (harness uses a 20 s maxDuration)"]
+prop("C02", coq_deps=AUTHZ_DEPS,
+     theorems=["C02_monotone", "C02_no_content_helps", "C02_exact_effect", "C02_prefix_cases"],
+     trusted=AUTHZ_TRUSTED + ["tokens with dangling symbol indexes (not producible through the builders) are outside the S-level model: see known finding F9"],
+     assumptions=["T <> [] (a token has an authority block)"])
+prop("C03", coq_deps=AUTHZ_DEPS,
+     theorems=["C03_authority_phase_blind", "C03_blocks_independent", "C03_other_blocks_unaffected", "C03_block_facts_local",
+               "C03_block_insert", "C03_state_blind", "C03_queries_blind", "C03_authority_visible"],
+     trusted=AUTHZ_TRUSTED, assumptions=[])
+prop("C04", coq_deps=AUTHZ_DEPS + ["DatalogProofs.v"],
+     theorems=["C04_verdict_structure", "C04_success_iff", "C04_precedence", "C04_decision", "C04_first_match", "C04_no_match",
+               "C04_or_is_disjunction", "C04_run_error_wins"],
+     trusted=AUTHZ_TRUSTED, assumptions=["the scopes' worlds are the run results; that a run result is the least model is C05_least_model"])
+prop("C13", coq_deps=AUTHZ_DEPS,
+     theorems=["C13_reset_fresh", "C13_rounds", "C13_rounds_outputs", "C13_history_cut", "C13_limits_invariant"],
+     trusted=AUTHZ_TRUSTED, assumptions=["Reset is modelled as going back to the empty world carrying the configured limits (fix 829f55f)"])
+
+prop("C05", coq_deps=["Base.v", "Term.v", "Expr.v", "Datalog.v", "Corr.v", "DatalogProofs.v", "Generated.v"],
+     theorems=["C05_run_sound", "C05_run_complete", "C05_least_model", "C05_derivable_is_least", "C05_query_exact",
+               "C05_query_sound", "C05_order_free", "C05_world_only_grows"],
+     trusted=["Go's regexp is not modelled (Section variable rx)",
+              "the join enumeration is modelled declaratively (combos: lexicographic index tuples pruned by Match); the literal index "
+              "machine of combine/advanceIndexes is tied by the ORDERED correspondence (World.Facts() and QueryRule results compared as "
+              "ordered lists) and by Proofs/OdometerProofs.v where closed",
+              "S-level model (strings by content); wall-clock timeout not modelled"],
+     assumptions=["completeness and order-independence are stated for set-free facts and rule heads (Set.Equal is not an equivalence on "
+                  "lists with repeated elements: C05_setfree_needed); soundness needs no hypothesis"])
